@@ -17,7 +17,7 @@ from .C03 import local_assignments
 S = "acryo/simulator.py::"
 ANCHORS = [S + "TomogramSimulator." + n for n in ("_simulate", "_simulate_with_color", "simulate_2d", "simulate_projection", "simulate_tilt_series", "_get_image")] + \
           [S + n for n in ("_prep_iterators", "_compose_affine_matrices", "_prep_slices", "_simulate_one", "_simulate_color_one", "_simulate_2d_one",
-                           "_simulate_projection_one", "_eyes")] + ["acryo/_utils.py::make_slice_and_pad"]
+                           "_simulate_projection_one")] + ["acryo/_utils.py::make_slice_and_pad"]
 
 
 class PlaceDomain(ArrayDomain):
@@ -190,8 +190,22 @@ def frames_clause(model, rep, funcs):
                                      "$t0 = np.array([[1.0, 0.0, 0.0, $dz], [0.0, 1.0, 0.0, $dy], [0.0, 0.0, 1.0, $dx], [0.0, 0.0, 0.0, 1.0]], ...)",
                                      "$t1 = _eyes(len(rotator))", "$t1[:, :3, 3] = -output_center", "$r = _eyes(len(rotator))", "$r[:, :3, :3] = rotator.as_matrix()",
                                      "return np.einsum('ij,njk,nkl->nil', $t0, $r, $t1)"])
-        ey = model.func(S + "_eyes")
-        ok = ok and Matcher(ey).has("return np.stack([np.eye(4, ...)] * n, axis=0)")
+        try:
+            ey = model.func(S + "_eyes")
+        except Exception:
+            ey = None
+        if ey is not None:
+            ok = ok and Matcher(ey).has("return np.stack([np.eye(4, ...)] * n, axis=0)")
+        else:
+            # the stack of identity matrices is built in place (the private helper was inlined); T(+center) as a literal or as an identity with its last column set
+            MGc = Matcher(g)
+            tail_ = ["$t1 = np.stack([np.eye(4, ...)] * len(rotator), axis=0)", "$t1[:, :3, 3] = -output_center",
+                     "$r = np.stack([np.eye(4, ...)] * len(rotator), axis=0)", "$r[:, :3, :3] = rotator.as_matrix()",
+                     "return np.einsum('ij,njk,nkl->nil', $t0, $r, $t1)"]
+            ok, det = MGc.all_of(["$t0 = np.eye(4, ...).copy()", "$t0[:3, 3] = center"] + tail_)
+            if not ok:
+                ok, det = MGc.all_of(["$dz, $dy, $dx = center",
+                                      "$t0 = np.array([[1.0, 0.0, 0.0, $dz], [0.0, 1.0, 0.0, $dy], [0.0, 0.0, 1.0, $dx], [0.0, 0.0, 0.0, 1.0]], ...)"] + tail_)
         rep.ob("F", g.anchor, "matrix is T(+center) @ R @ T(-output_center) for every molecule (x_in = center + R (x_out - output_center))", ok, det, node=g.node,
                fn=g, clause="2 frames", stmt="def _compose_affine_matrices")
     h = funcs.get(S + "_simulate_projection_one")
